@@ -175,7 +175,7 @@ def _value_el(t, v):
 
 
 def valid_response(tag, name, pool, class_level=False, force_eos=False,
-                   payload_of=None):
+                   payload_of=None, mix=False, own_class_level=None):
     """
     Well-formed, DTD-valid, semantically right response (text) for request
     element `tag` (IMETHODCALL/METHODCALL/EXPMETHODCALL) and method `name`.
@@ -199,6 +199,15 @@ def valid_response(tag, name, pool, class_level=False, force_eos=False,
     if kind == 'export':
         kind = 'void'
     kids = ireturn_children(kind, pool, class_level)
+    if mix and payload_of:
+        # the right objects first, then those of the other operation: a
+        # result list whose first element is right and a later one is not
+        own_kind = KIND.get(name, 'void')
+        own = None if own_kind in ('void', 'export') else ireturn_children(
+            own_kind, pool, class_level if own_class_level is None
+            else own_class_level)
+        if own and kids:
+            kids = list(own) + list(kids)
     children = []
     if kids is not None:
         children.append(_cim_xml.IRETURNVALUE(kids))
